@@ -557,6 +557,13 @@ def b_getattr(I, o, name, *default):
     return I.getattr(o, name)
 
 
+def b_setattr(I, o, name, v):
+    if not isinstance(name, str):
+        raise Unsupported("setattr with a symbolic attribute name")
+    I.setattr(o, name, v)
+    return None
+
+
 def b_print(I, *a, **k):
     return None
 
@@ -597,7 +604,7 @@ BUILTINS.update({
     "len": b_len, "zip": b_zip, "enumerate": b_enumerate, "reversed": b_reversed, "iter": b_iter, "next": b_next,
     "list": b_list, "tuple": b_tuple, "set": b_set, "dict": b_dict, "max": b_max, "min": b_min, "range": b_range,
     "bool": b_bool, "int": b_int, "str": b_str, "repr": b_repr, "sum": b_sum, "sorted": b_sorted,
-    "getattr": b_getattr, "print": b_print, "any": b_any, "all": b_all, "super": b_super, "map": (lambda I, f, *its: Opaque("map")), "type": b_type, "id": b_id, "callable": b_callable,
+    "getattr": b_getattr, "setattr": b_setattr, "print": b_print, "any": b_any, "all": b_all, "super": b_super, "map": (lambda I, f, *its: Opaque("map")), "type": b_type, "id": b_id, "callable": b_callable,
     "True": True, "False": False, "None": None, "Ellipsis": Ellipsis,
 })
 BUILTINS["open"] = FuncRef("open")
